@@ -25,6 +25,12 @@ func (c *Cmd) stderrNoise() []byte {
 	return ExecStderrHook(c.Args[0], c.Args[1:])
 }
 
+// ExecEnvHook, when set, sees the environment a simulated command is started
+// with (nil = the parent's, as in os/exec) before the command runs; a non-nil
+// error is what Run returns instead of running it (a tool that cannot start
+// without PATH or HOME, for instance).
+var ExecEnvHook func(name string, env []string) error
+
 // LookPathHook answers LookPath when set.
 var LookPathHook func(file string) (string, error)
 
@@ -132,6 +138,17 @@ func (c *Cmd) simulate() {
 		}
 	}
 	Yield("exec.start")
+	if ExecEnvHook != nil {
+		if err := ExecEnvHook(c.Args[0], c.Env); err != nil {
+			c.out, c.err = nil, err
+			c.setState()
+			if s != nil {
+				s.advanceTo(finish)
+			}
+			Yield("exec.end")
+			return
+		}
+	}
 	c.out, c.err = ExecHook(c.Args[0], c.Args[1:], c.Dir)
 	c.setState()
 	if s != nil {
